@@ -3,7 +3,11 @@ import random
 from wire import *
 
 LABELS = [b'a', b'b', b'c', b'A', b'B', b'example', b'Example', b'EXAMPLE', b'org', b'ORG', b'com', b'www', b'ns1', b'mail',
-          b'x' * 63, b'Y' * 63, b'\xe2\x84\xaa', b'\xc4\xb0', b'i\xcc\x87', b'a.b', b'\x00', b'k', b'K', b'xn--nxasmq6b', b'_tcp', b'*']
+          b'x' * 63, b'Y' * 63, b'\xe2\x84\xaa', b'\xc4\xb0', b'i\xcc\x87', b'a.b', b'\x00', b'k', b'K', b'xn--nxasmq6b', b'_tcp', b'*',
+          # octets that differ from another legal octet only in bit 0x20 without being letters, Z/z (the last letter of the
+          # case range), labels whose printed form collides with a sequence of labels
+          b'srv[1}', b'srv{1}', b'{id}', b'[id]', b'_dmarc', b'\x7fdmarc', b'a@b', b'a`b', b'Zone', b'zone', b'ZZ', b'zz',
+          b'\xc3\x89', b'\xc3\xa9', b'b.example', b'a.b.example']
 
 def rand_label(rng):
     r = rng.random()
@@ -72,7 +76,11 @@ def prefix_addr(rng, size, pfx):
     if pfx < size * 8:
         v &= ~((1 << (size * 8 - pfx)) - 1)
     if rng.random() < 0.1: v = 0
-    return v.to_bytes(size, 'big')
+    a = bytearray(v.to_bytes(size, 'big'))
+    if rng.random() < 0.3 and pfx >= 16:
+        # a zero octet in the middle of the covered part (an encoder must not stop at it)
+        a[rng.randrange(0, max(1, min(size, pfx // 8) - 1))] = 0
+    return bytes(a)
 
 def rand_option(rng):
     k = rng.choice(['ecs', 'cookie', 'pad'])
